@@ -24,17 +24,46 @@ def job_handler(res):
         if len(calls) >= 3: break
     res.obs.append(Ob('the handler is installed (signal(SIGINT, ...)) right at the start of main, before option parsing (first calls: %s)' % calls[:3], 'holds' if 'signal' in calls[:2] else 'violated', key='handler-installed-first'))
 
+ALL_TUS = ['src/main.cpp', 'src/FFTWWrapper.cpp', 'src/HelperFunctions.cpp', 'src/IO/Display.cpp', 'src/IO/FSPath.cpp', 'src/IO/HDF5File.cpp', 'src/IO/ProgramOptions.cpp', 'src/PS/ElectricField.cpp', 'src/PS/PhaseSpace.cpp',
+           'src/PS/PhaseSpaceFactory.cpp', 'src/SM/DriftMap.cpp', 'src/SM/DynamicRFKickMap.cpp', 'src/SM/FokkerPlanckMap.cpp', 'src/SM/Identity.cpp', 'src/SM/KickMap.cpp', 'src/SM/RFKickMap.cpp', 'src/SM/RotationMap.cpp',
+           'src/SM/SourceMap.cpp', 'src/SM/WakeKickMap.cpp', 'src/SM/WakePotentialMap.cpp', 'src/Z/CollimatorImpedance.cpp', 'src/Z/ConstImpedance.cpp', 'src/Z/FreeSpaceCSR.cpp', 'src/Z/Impedance.cpp', 'src/Z/ImpedanceFactory.cpp',
+           'src/Z/ParallelPlatesCSR.cpp', 'src/Z/ResistiveWall.cpp']
+def all_build():
+    tus = [t for t in ALL_TUS if os.path.exists(os.path.join(B.REPO, t))]
+    extra = sorted(os.path.relpath(os.path.join(d, f), B.REPO) for d, _, fs in os.walk(os.path.join(B.REPO, 'src')) for f in fs if f.endswith('.cpp') and '/CL' not in d and '/GUI' not in d)
+    return B.build(None, sorted(set(tus) | set(extra)), hdf5=1, link=False)
+
+def job_signal_disposition(res):
+    """"an interrupt at any moment" presupposes that the handler stays installed and the signal is never ignored or blocked: in the IR of every translation unit of the program the only call that
+    touches signal handling is the one installation in main (the handler itself is obligation H1)"""
+    bld = all_build(); import re as _re
+    fam = ('signal', 'sigaction', 'sigprocmask', 'pthread_sigmask', 'sigsuspend', 'sigwait', 'sigwaitinfo', 'sigtimedwait', 'siginterrupt', 'sigblock', 'sigsetmask', 'sighold', 'sigignore', 'sigset', 'bsd_signal', 'sysv_signal', '__sysv_signal', 'signalfd')
+    sites = []
+    for name, path in sorted(bld['ll'].items()):
+        cur = None; n = 0
+        for ln in open(path):
+            n += 1
+            if ln.startswith('define '):
+                m = _re.search(r'@("[^"]*"|[-\w.$]+)\(', ln); cur = m.group(1) if m else '?'
+            m = _re.search(r'\b(?:call|invoke)\b[^@]*@(%s)\(' % '|'.join(fam), ln)
+            if m: sites.append((name, cur, m.group(1), ln.strip()[:160]))
+        res.instrs += n
+    res.paths += len(bld['ll'])
+    ok = len(sites) == 1 and sites[0][0] == 'main' and sites[0][1] == 'main' and sites[0][2] == 'signal' and 'SIGINT_handler' in sites[0][3] and 'i32 noundef 2' in sites[0][3]
+    res.obs.append(Ob('in all %d translation units the only call that touches signal handling is main\'s signal(SIGINT, Display::SIGINT_handler): the handler is never replaced, the signal never ignored or blocked (found: %s)' % (len(bld['ll']), [(a, b, c) for a, b, c, d in sites]),
+                      'holds' if ok else 'violated', key='signal-disposition', detail='' if ok else str(sites[:4]), cex=None if ok else {'replay': 'structural', 'sites': [list(x) for x in sites[:4]]}))
+
 def main(tier):
     chk = Check('C14', tier, '4/C14')
     import c10
-    jobs = [(job_handler, ())] + mainloop.jobs_for('C14', tier)
+    jobs = [(job_handler, ()), (job_signal_disposition, ())] + mainloop.jobs_for('C14', tier)
     # what an append event does to the file (the summary the trace obligations rely on): every kind of append extends exactly its datasets by one record, whatever the time label
     jobs += [(c10.job_append, c) for c in ((4, 1, 8, 2), (4, 2, 12, 2))]
     K = 2 if tier == 'quick' else 3
     chk.bounds = {'loop iterations per path': K, 'interrupt points': 'every evaluation of the loop test (the flag is a fresh, monotone boolean at each volatile read), i.e. before the first step, between any two steps, and after the last step; plus every other place where main reads the flag (explored with the flag set)',
                   'symbolic': 'laststep, outstep, renormalize, SavePhaseSpace, steps, presence of results file / wake map / dynamic RF / tracking'}
     chk.assumptions = ['because the handler only sets the flag (obligation H1), an interrupt between any two statements is observationally the first later read returning true',
-                       'system calls interrupted by the signal are restarted (signal() installs SA_RESTART on glibc); exceptions from HDF5 are outside',
+                       'system calls interrupted by the signal are restarted (signal() installs SA_RESTART on glibc); exceptions from HDF5 are outside', 'library code (libhdf5, FFTW, boost) does not change the disposition of SIGINT',
                        'that all time-indexed datasets get one record per append is C10-G1; that each record equals the uninterrupted run\'s follows from the loop being deterministic and the prefix property of the explored path tree (same decisions, same events)',
                        'calls are events (callee + arguments); their effects on the file come from the C10 summaries']
     chk.stubs = ['every call in main that is not arithmetic: event returning a fresh value (const std:: helpers memoised on their arguments)', 'volatile read of Display::abort: fresh monotone boolean']
